@@ -32,37 +32,114 @@ Record jws := mk_jws {
 
 Inductive status := SUp | SDown | SErroring.
 
+(* The diagnostic text a directory attaches to a refusal: nothing, a plain sentence (OpenLDAP
+   style), or Active Directory's "AcceptSecurityContext error, data <sub>, ..." with its sub
+   status (0x52e bad password, 0x525 no such user, 0x530/0x531 logon restriction, 0x532
+   password expired, 0x533 account disabled, 0x701 account expired, 0x773 must reset, 0x775
+   locked out ...). *)
+Inductive diag := DNone | DPlain | DAD (sub : N).
+
+(* what one bind attempt brings back: bound; an LDAP result (code, diagnostic); or no LDAP
+   answer at all (connection / TLS failure, timeout) *)
+Inductive reply := RBound | RRefused (code : N) (d : diag) | RSilent.
+Definition invalid_credentials : N := 49.      (* LDAPResultInvalidCredentials *)
+Definition other_code : N := 80.               (* stands for every result code but 0 and 49 *)
+
 Record pstate := mk_pstate {
   st : state;                        (* both stores, clock, primary mode (Model/Storage.v) *)
   dir : list (N * N);                (* the directory: user -> current password *)
   servers : list status;             (* the configured LDAP URLs, in order *)
-  jwss : list jws                    (* every record that ever existed; position = its number *)
+  jwss : list jws;                   (* every record that ever existed; position = its number *)
+  acct : list (N * diag);            (* accounts in a state in which the directory refuses EVERY
+                                        bind (disabled, locked out, expired ...), with the
+                                        diagnostic it gives for them *)
+  style : diag;                      (* the diagnostic of ordinary refusals (wrong password,
+                                        unknown user) of this directory product *)
+  extra_patterns : nat;              (* bind patterns configured BEYOND the first (config.go builds
+                                        exactly one: 0 here) *)
+  homes : list (N * nat)             (* the pattern (index) under which a user's entry lives;
+                                        absent = the first pattern *)
 }.
 
-Definition pinit (nservers : nat) : pstate :=
-  mk_pstate init [] (repeat SUp nservers) [].
+Definition pinit2 (nservers extra : nat) : pstate :=
+  mk_pstate init [] (repeat SUp nservers) [] [] DPlain extra [].
+Definition pinit (nservers : nat) : pstate := pinit2 nservers 0.
 
-(* what one bind attempt answers: Some verdict, or None (connection failure, or an LDAP
-   result other than success / invalidCredentials) *)
-Definition bind (s : pstate) (sv : status) (u pw : N) : option bool :=
+Definition home (s : pstate) (u : N) : nat :=
+  match aget N.eqb u (homes s) with Some p => p | None => O end.
+
+(* the directory's own verdict on (u, pw): u's entry holds pw, pw is not the empty password,
+   and the account is in order *)
+Definition entry_accepts (s : pstate) (u pw : N) : bool :=
+  match aget N.eqb u (dir s) with
+  | Some p => N.eqb p pw && negb (N.eqb pw 0)     (* password 0 = the empty one *)
+  | None => false
+  end &&
+  match aget N.eqb u (acct s) with Some _ => false | None => true end.
+(* ... as keymaster can learn it: under the FIRST bind pattern (see first_answer_gen: a replica
+   that answers at all answers the first pattern's bind, and that answer is final) *)
+Definition dir_accepts (s : pstate) (u pw : N) : bool :=
+  entry_accepts s u pw && Nat.eqb (home s u) 0.
+
+Definition refusal_diag (s : pstate) (u : N) : diag :=
+  match aget N.eqb u (acct s) with Some d => d | None => style s end.
+
+(* one bind attempt: server sv, the bind DN built from pattern number p.  Under the pattern the
+   user's entry lives under, a refusal carries the account's / the style's diagnostic; under any
+   other pattern there is no such entry (the style's diagnostic) *)
+Definition bind_at (s : pstate) (sv : status) (p : nat) (u pw : N) : reply :=
   match sv with
-  | SUp => Some (match aget N.eqb u (dir s) with
-                 | Some p => N.eqb p pw && negb (N.eqb pw 0)     (* password 0 = the empty one *)
-                 | None => false
-                 end)
-  | _ => None
+  | SUp => if entry_accepts s u pw && Nat.eqb (home s u) p then RBound
+           else RRefused invalid_credentials (if Nat.eqb (home s u) p then refusal_diag s u else style s)
+  | SErroring => RRefused other_code (style s)
+  | SDown => RSilent
+  end.
+(* the attempt under the first pattern *)
+Definition bind (s : pstate) (sv : status) (u pw : N) : reply := bind_at s sv 0 u pw.
+
+(* lib/authutil CheckLDAPUserPassword: bound -> (true, nil); an error whose text contains
+   "Invalid Credentials", i.e. (go-ldap prints `LDAP Result Code 49 "Invalid Credentials":
+   <diagnostic>`) result code 49 WHATEVER the diagnostic -> (false, nil); everything else is an
+   error = "this server did not answer".  [interp code diag] is that middle part. *)
+Definition interp_code (c : N) (d : diag) : option bool :=
+  if N.eqb c invalid_credentials then Some false else None.
+(* a reading of the diagnostic that lets only "bad password" / "no such user" count as a verdict
+   (what an Active-Directory-aware refinement might do): refuted in Props/C07.v *)
+Definition interp_ad (c : N) (d : diag) : option bool :=
+  if N.eqb c invalid_credentials
+  then match d with
+       | DAD sub => if N.eqb sub 1326 || N.eqb sub 1317 then Some false else None   (* 0x52e, 0x525 *)
+       | _ => Some false
+       end
+  else None.
+
+Definition verdict (interp : N -> diag -> option bool) (r : reply) : option bool :=
+  match r with
+  | RBound => Some true
+  | RRefused c d => interp c d
+  | RSilent => None
   end.
 
-(* the double loop of passwordAuthenticate (one bind pattern per server, as config.go builds
-   it): the first attempt that answers decides *)
-Fixpoint first_answer (s : pstate) (svs : list status) (u pw : N) : option bool :=
+(* the double loop of passwordAuthenticate: for every URL, for every bind pattern; the first
+   attempt that answers decides *)
+Fixpoint try_patterns (interp : N -> diag -> option bool) (s : pstate) (sv : status) (ps : list nat) (u pw : N) : option bool :=
+  match ps with
+  | [] => None
+  | p :: r => match verdict interp (bind_at s sv p u pw) with
+              | Some v => Some v
+              | None => try_patterns interp s sv r u pw
+              end
+  end.
+Definition patterns (s : pstate) : list nat := seq 0 (S (extra_patterns s)).
+Fixpoint first_answer_gen (interp : N -> diag -> option bool) (s : pstate) (svs : list status) (u pw : N) : option bool :=
   match svs with
   | [] => None
-  | sv :: r => match bind s sv u pw with
+  | sv :: r => match try_patterns interp s sv (patterns s) u pw with
                | Some v => Some v
-               | None => first_answer s r u pw
+               | None => first_answer_gen interp s r u pw
                end
   end.
+Definition first_answer := first_answer_gen interp_code.
 
 Inductive got := GNone | GErr | GOk (j : jws).
 
@@ -84,7 +161,7 @@ Definition get_pw (claim_checked : bool) (s : pstate) (u : N) : got :=
       end
   end.
 
-Definition with_st (s : pstate) (x : state) : pstate := mk_pstate x (dir s) (servers s) (jwss s).
+Definition with_st (s : pstate) (x : state) : pstate := mk_pstate x (dir s) (servers s) (jwss s) (acct s) (style s) (extra_patterns s) (homes s).
 
 (* UpsertSigned(u, 1, now+96h, hash): a new signed record, stored in the primary (and, since
    the repair, repeated on the local cache); nothing happens when the primary cannot be written *)
@@ -94,7 +171,7 @@ Definition refresh (stp : state -> op -> state * out) (s : pstate) (u pw : N) : 
     let n := now (st s) in
     mk_pstate (fst (stp (st s) (Upsert u pw_type id (n + cache_secs))))
               (dir s) (servers s)
-              (jwss s ++ [mk_jws true u pw n (n + cache_secs)])
+              (jwss s ++ [mk_jws true u pw n (n + cache_secs)]) (acct s) (style s) (extra_patterns s) (homes s)
   else s.
 
 (* DeleteSigned(u, 1) *)
@@ -102,9 +179,9 @@ Definition evict (stp : state -> op -> state * out) (s : pstate) (u : N) : pstat
   with_st s (fst (stp (st s) (DelSigned u pw_type))).
 
 (* passwordAuthenticate u pw (u already normalised) *)
-Definition login_gen (claim_checked : bool) (stp : state -> op -> state * out)
+Definition login_gen (claim_checked : bool) (interp : N -> diag -> option bool) (stp : state -> op -> state * out)
            (s : pstate) (u pw : N) : pstate * bool :=
-  match first_answer s (servers s) u pw with
+  match first_answer_gen interp s (servers s) u pw with
   | Some true => (refresh stp s u pw, true)
   | Some false =>
       (match get_pw claim_checked s u with
@@ -118,7 +195,7 @@ Definition login_gen (claim_checked : bool) (stp : state -> op -> state * out)
           end)
   end.
 
-Definition login := login_gen true step.
+Definition login := login_gen true interp_code step.
 
 (* tampering by SQL *)
 Inductive which := WPrimary | WCache.
@@ -141,7 +218,10 @@ Inductive pop :=
 | PTick (dt : Z)
 | PMode (m : mode)
 | PSync
-| Tamper (w : which) (slot : N) (r : forged_or) (col_exp : Z).
+| Tamper (w : which) (slot : N) (r : forged_or) (col_exp : Z)
+| SetAcct (u : N) (d : option diag)     (* the account is put out of order (refused with diagnostic d) / back in order *)
+| SetStyle (d : diag)
+| SetHome (u : N) (p : nat).            (* the user's entry lives under bind pattern number p *)
 
 Fixpoint set_nth {A} (i : nat) (v : A) (l : list A) : list A :=
   match l, i with
@@ -150,12 +230,18 @@ Fixpoint set_nth {A} (i : nat) (v : A) (l : list A) : list A :=
   | x :: r, S i' => x :: set_nth i' v r
   end.
 
-Definition pstep_gen (claim_checked : bool) (stp : state -> op -> state * out)
+Definition pstep_gen (claim_checked : bool) (interp : N -> diag -> option bool) (stp : state -> op -> state * out)
            (s : pstate) (o : pop) : pstate * option bool :=
   match o with
-  | Login u pw => let '(s', v) := login_gen claim_checked stp s u pw in (s', Some v)
-  | SetServer i sv => (mk_pstate (st s) (dir s) (set_nth i sv (servers s)) (jwss s), None)
-  | ChangePw u pw => (mk_pstate (st s) (aset N.eqb u pw (dir s)) (servers s) (jwss s), None)
+  | Login u pw => let '(s', v) := login_gen claim_checked interp stp s u pw in (s', Some v)
+  | SetServer i sv => (mk_pstate (st s) (dir s) (set_nth i sv (servers s)) (jwss s) (acct s) (style s) (extra_patterns s) (homes s), None)
+  | ChangePw u pw => (mk_pstate (st s) (aset N.eqb u pw (dir s)) (servers s) (jwss s) (acct s) (style s) (extra_patterns s) (homes s), None)
+  | SetAcct u d => (mk_pstate (st s) (dir s) (servers s) (jwss s)
+                              (match d with Some x => aset N.eqb u x (acct s) | None => adel N.eqb u (acct s) end) (style s)
+                              (extra_patterns s) (homes s), None)
+  | SetStyle d => (mk_pstate (st s) (dir s) (servers s) (jwss s) (acct s) d (extra_patterns s) (homes s), None)
+  | SetHome u p => (mk_pstate (st s) (dir s) (servers s) (jwss s) (acct s) (style s) (extra_patterns s)
+                              (aset N.eqb u p (homes s)), None)
   | PTick dt => (with_st s (fst (stp (st s) (Tick (Z.max 0 dt)))), None)
   | PMode m => (with_st s (fst (stp (st s) (SetMode m))), None)
   | PSync => (with_st s (fst (stp (st s) (Sync None))), None)
@@ -164,19 +250,21 @@ Definition pstep_gen (claim_checked : bool) (stp : state -> op -> state * out)
       | RExisting id => (with_st s (put w (st s) slot (Some (mk_srow id col 0))), None)
       | RForged sub pw nbf ex =>
           (mk_pstate (put w (st s) slot (Some (mk_srow (N.of_nat (length (jwss s))) col 0)))
-                     (dir s) (servers s) (jwss s ++ [mk_jws false sub pw nbf ex]), None)
+                     (dir s) (servers s) (jwss s ++ [mk_jws false sub pw nbf ex]) (acct s) (style s) (extra_patterns s) (homes s), None)
       | RDelete => (with_st s (put w (st s) slot None), None)
       end
   end.
 
-Definition pstep := pstep_gen true step.
+Definition pstep := pstep_gen true interp_code step.
+(* the diagnostic-sensitive reading, otherwise the same machine *)
+Definition pstep_ad := pstep_gen true interp_ad step.
 
 Definition prun (n : nat) (ops : list pop) : pstate :=
   fold_left (fun s o => fst (pstep s o)) ops (pinit n).
 
 (* the code before the repairs: signed exp claim not looked at, eviction and refresh in the
    primary only, synchronisation that never deletes (Storage.step_old) *)
-Definition pstep_old := pstep_gen false (step_old false).
+Definition pstep_old := pstep_gen false interp_code (step_old false).
 Definition prun_old (n : nat) (ops : list pop) : pstate :=
   fold_left (fun s o => fst (pstep_old s o)) ops (pinit n).
 
@@ -199,11 +287,11 @@ Definition obool_eqb (a b : option bool) : bool :=
   match a, b with Some x, Some y => Bool.eqb x y | None, None => true | _, _ => false end.
 
 (* ops, the verdict of each login (None for other ops), snapshots of both stores *)
-Definition pw_case := (nat * list pop * list (option bool) * list (nat * db * db))%type.
+Definition pw_case := ((nat * nat) * list pop * list (option bool) * list (nat * db * db))%type.
 
 Definition pw_case_ok (c : pw_case) : bool :=
-  let '(n, ops, outs, snaps) := c in
-  let tr := prun_outs (pinit n) ops in
+  let '((n, extra), ops, outs, snaps) := c in
+  let tr := prun_outs (pinit2 n extra) ops in
   list_eqb obool_eqb (map snd tr) outs &&
   forallb (fun e => let '(i, p, c) := e in
                     match nth_error tr i with
